@@ -74,10 +74,12 @@ Theorem emitter_pool_bounded : forall U s, 0 <= e_cap s -> 0 <= e_used s <= U ->
 Proof. exact emitter_reset_bound. Qed.
 Print Assumptions emitter_pool_bounded.
 
-(* ---- 6. each distinct vtable is emitted once per buffer when no cache limit is set *)
+(* ---- 6. each distinct vtable is emitted once per buffer when no cache limit is set: among the vtable emits of a run
+   (from any state with the limit unset, e.g. right after reset; no explicit flush / limit call in the run; the
+   end_table calls returned references) no (nest id of the buffer, vtable bytes) pair occurs twice. *)
 Theorem vtable_once_per_buffer : forall ops s rs es t,
-  Inv s -> vb_flush_limit s = 0 -> cache_complete [] s -> no_flush ops ->
-  run true ops s = Some (rs, es, t) ->
+  vb_flush_limit s = 0 -> fa s < 0 -> fe s < 0 -> no_flush ops ->
+  run true ops s = Some (rs, es, t) -> end_tables_ok ops rs ->
   NoDup (map vkey (filter is_vt es)).
 Proof. exact vtable_once. Qed.
 Print Assumptions vtable_once_per_buffer.
@@ -98,7 +100,7 @@ Example footprint_hypotheses_satisfiable :
   exists t, hist_run h st_init = Some t.
 Proof.
   split.
-  - repeat constructor; cbn [fst]; intros f rs es t [x ->] E k; cbn in E; injection E as _ _ <-; destruct k; cbn; lia.
+  - repeat constructor; cbn [fst]; intros f rs es t [x ->] E k; vm_compute in E; injection E as _ _ <-; destruct k; vm_compute; congruence.
   - eexists. vm_compute. reflexivity.
 Qed.
 
